@@ -38,7 +38,30 @@ class C14(LineCheck):
         d = os.path.join(ctx.work, "b")
         ok, out = tsanrun.build(d)
         self.d = d
-        return ok, out
+        if not ok:
+            return ok, out
+        # real fork / real signals stress of iv_wait + iv_signal across threads
+        ok, out2 = vlib.cc_build(d, "tsan_stress", ["tsan_stress.c"], vlib.LIB_SRCS,
+                                 san_flags=["-fsanitize=thread", "-fno-omit-frame-pointer"])
+        return ok, out + out2
+
+    def run_stress(self, seed):
+        import subprocess, re
+        exe = os.path.join(self.d, "tsan_stress")
+        try:
+            p = subprocess.run([exe, str(seed)], stdout=subprocess.PIPE, stderr=subprocess.PIPE, text=True, errors="replace",
+                               timeout=90, env=dict(os.environ, TSAN_OPTIONS="exitcode=66 halt_on_error=0"))
+            out, err, rc = p.stdout, p.stderr, p.returncode
+        except subprocess.TimeoutExpired:
+            out, err, rc = "", "[timeout]", 124
+        races = []
+        for blk in err.split("=================="):
+            if "WARNING: ThreadSanitizer: data race" in blk:
+                glob = re.search(r"Location is global '([^']+)'", blk)
+                name = glob.group(1) if glob else ""
+                if not (name and any(re.search(e, name) for e in tsanrun.EXEMPT)):
+                    races.append(blk.strip()[:3000])
+        return {"case": "STRESS %d" % seed, "races": races, "complete": "DONE" in out, "rc": rc, "err": err[-400:]}
 
     def cases(self, ctx):
         rng = vlib.rng_for(ctx.seed, "C14")
@@ -75,7 +98,22 @@ class C14(LineCheck):
                     crashes.append((idx, "program did not terminate (free-running): " + r["out_tail"]))
             else:
                 nontriv.add(hashlib.sha1(r["case"].encode()).hexdigest())
-        return {"n": len(jobs), "div": [], "crashes": crashes, "monfail": [], "nontrivial": len(nontriv),
+        # the wait/signal stress
+        seeds = [ctx.seed * 100 + k for k in range(8 if ctx.tier == "quick" else 80)]
+        with ThreadPoolExecutor(max_workers=8) as ex:
+            sres = list(ex.map(self.run_stress, seeds))
+        self.stress_runs = len(sres)
+        self.stress_incomplete = sum(1 for r in sres if not r["complete"])
+        for r in sres:
+            cases.append(r["case"])
+            idx = len(cases) - 1
+            if r["races"]:
+                crashes.append((idx, "ThreadSanitizer: data race (wait/signal stress)\n" + r["races"][0]))
+            elif not r["complete"]:
+                crashes.append((idx, "wait/signal stress did not finish (rc=%s): %s" % (r["rc"], r["err"])))
+            else:
+                nontriv.add(hashlib.sha1(r["case"].encode()).hexdigest())
+        return {"n": len(jobs) + len(sres), "div": [], "crashes": crashes, "monfail": [], "nontrivial": len(nontriv),
                 "mres": [("", None)] * len(cases), "ires": [("", None)] * len(cases), "mon": None}
 
     def describe(self, case):
@@ -91,6 +129,7 @@ class C14(LineCheck):
 
     def distribution(self, cases):
         return {"corpus_programs": self.n_corpus, "programs": len(cases), "runs_per_program": self.repeat,
+                "stress_runs": getattr(self, "stress_runs", 0), "stress_not_finished": getattr(self, "stress_incomplete", 0),
                 "exempt_flag_races_seen": getattr(self, "exempt_seen", 0), "runs_not_completed": getattr(self, "incomplete", 0)}
 
     def replay(self, ctx, path):
@@ -106,6 +145,10 @@ class C14(LineCheck):
         if not ok:
             print(out)
             return 2
+        if case.startswith("STRESS "):
+            r = self.run_stress(int(case.split()[1]))
+            print(r["races"][0] if r["races"] else "no race reported; complete=%s" % r["complete"])
+            return 1 if (r["races"] or not r["complete"]) else 0
         bad = 0
         for i in range(10):
             r = tsanrun.run(os.path.join(self.d, "ivfree"), [case])[0]
